@@ -35,13 +35,20 @@ func genHistory(r *Rng, spec *WorldSpec, n int, withCrash bool) []Op {
 	cb := spec.Filters[0].CallbackPath
 	for i := 0; i < n; i++ {
 		b := r.Intn(2)
-		switch r.Intn(16) {
+		switch r.Intn(18) {
 		case 0, 1, 2:
 			ops = append(ops, Op{ID: nid(), Kind: "nav", B: b, Path: target})
 		case 3:
 			ops = append(ops, Op{ID: nid(), Kind: "send", B: b, Path: target, S: "own"})
 		case 4:
 			ops = append(ops, Op{ID: nid(), Kind: "send", B: 2, Path: r.Pick(append(attackPaths, target)), S: r.Pick([]string{"none", "garbage", "empty", "malformed", "of:0", "of:1", "fixed:attackerchosen0000000000000000000000000000000000000000000000000000"})})
+		case 16:
+			// a live session id under a cookie name that is NOT the filter's: must not be honoured
+			ops = append(ops, Op{ID: nid(), Kind: "send", B: b, Path: target, S: "other-name:" + r.Pick([]string{"authservice-session-id-cookie", "__Host-authservice-session-id-cooki", "x__Host-authservice-session-id-cookie", "__Host-other-authservice-session-id-cookie", "__host-authservice-session-id-cookie"})})
+		case 17:
+			if r.Chance(0.5) {
+				ops = append(ops, Op{ID: nid(), Kind: "idp", Args: map[string]string{"byz": r.Pick([]string{"foreign-key-same-kid", "alg-none", "aud-foreign", "tampered-payload", ""}), "byz_on": "refresh"}})
+			}
 		case 5:
 			ops = append(ops, Op{ID: nid(), Kind: "send", B: b, Path: r.Pick(append(attackPaths, target)), S: "stale"})
 		case 6:
